@@ -63,6 +63,17 @@ def _enc(arr, planes_axis):
     return [[[int(v) for v in row] for row in plane] for plane in a]
 
 
+def _reproject_like(c, xx, dst, rkw):
+    """the lazy reprojection of build_dask with other keyword arguments"""
+    sch = (tuple(c["sy"]), tuple(c["sx"]))
+    if xx.ndim == 3:
+        sch = (tuple(c["cfg"].get("tchunks") or (1,) * xx.shape[0]),) + sch
+    xd = xx.chunk(dict(zip(xx.dims, sch)))
+    if (c["A"][2] // 60 + c["A"][5] // 60 + len(c["sy"])) % 5 == 0:
+        return xd.odc.reproject(dst, **rkw)
+    return xd.odc.reproject(dst, chunks=(tuple(c["dy"]), tuple(c["dx"])), **rkw)
+
+
 def build_dask(c):
     xx, dst, ids, rkw = _setup(c)
     sch = (tuple(c["sy"]), tuple(c["sx"]))
@@ -179,11 +190,29 @@ def execute(job):
             out = yy.compute(scheduler="synchronous").values
         elif order == "threads":
             out = yy.compute(scheduler="threads", num_workers=4).values
+        elif order == "together":
+            # the same lazy source reprojected twice more onto the same grid with OTHER fill parameters, all three evaluated as ONE graph
+            # (dask.compute(a, b, c) merges the graphs by key): every result must still be that of its own parameters
+            import dask
+
+            sib = []
+            base_nd = rkw.get("dst_nodata")
+            for alt in ({"dst_nodata": 113 if base_nd != 113 else 114}, {"dst_nodata": 0}):
+                k2 = dict(rkw, **alt)
+                sib.append((k2, _reproject_like(c, xx, dst, k2)))
+            res3 = dask.compute(yy, *[y2 for _, y2 in sib], scheduler="synchronous")
+            out = res3[0].values
+            for (k2, _), o2 in zip(sib, res3[1:]):
+                r2 = xx.odc.reproject(dst, **k2).values
+                if o2.values.dtype != r2.dtype or not np.array_equal(o2.values, r2, equal_nan=True):
+                    ev["outcome"] = "co_scheduled_reprojection_with_other_fill_parameters_differs_from_its_whole_array_result"
         else:
             g = RealGraph(yy.data)
             blocks = g.execute(order)
             out = np.block(blocks)
-        if out.dtype != ref.dtype or out.shape != ref.shape:
+        if ev["outcome"] != "ok":
+            pass
+        elif out.dtype != ref.dtype or out.shape != ref.shape:
             ev["outcome"] = "dtype_or_shape_differs_between_chunked_and_whole"
         ev.update(dask=_enc(out, 0), numpy=_enc(ref.values, 0), src=[[[int(v) for v in row] for row in plane] for plane in ids])
         if yy.odc.geobox != dst or ref.odc.geobox != dst:
@@ -246,11 +275,13 @@ def run(ctx):
                 jobs.append((c, o))
         if len(jobs) % 7 == 0:
             jobs.append((c, "threads"))
+        if len(jobs) % 5 == 0 and c.get("op") != "real":
+            jobs.append((c, "together"))
     events = ctx.pmap(execute, jobs)
     verdicts = _validate(ctx, events)
     for ev, v in zip(events, verdicts):
         c = ev["c"]
-        kind = "threads" if ev["order"] == "threads" else ("tlc-order" if ev["order"] else "default-order")
+        kind = ev["order"] if ev["order"] in ("threads", "together") else ("tlc-order" if ev["order"] else "default-order")
         case = {"c": c, "order": ev["order"]}
         if c.get("op") == "real":
             ctx.record(case, v, op=f"real-crs:{c['pair']}/{kind}", nontrivial=ev["covered"] > 0,
